@@ -140,8 +140,10 @@ func parserRequestHeader(c *Client, req *Request) error {
 		// noBody or rawBody do not require special handling here.
 	}
 
-	// Set User-Agent header.
-	req.RawRequest.Header.SetUserAgent(defaultUserAgent)
+	// Set User-Agent header: the default only when no header named User-Agent was configured.
+	if len(req.RawRequest.Header.UserAgent()) == 0 {
+		req.RawRequest.Header.SetUserAgent(defaultUserAgent)
+	}
 	if c.userAgent != "" {
 		req.RawRequest.Header.SetUserAgent(c.userAgent)
 	}
